@@ -116,6 +116,31 @@ def run_mc(work, pid, tier):
     return states, trans, detail
 
 
+# actions of Tunnel.tla a property's model checking is about: each must be taken in the property's quick configuration(s),
+# otherwise the invariants were checked vacuously (thorough tier: TLC -coverage, reported in the evidence)
+REQUIRED = {'C03': ['SendFirstTx', 'SendResend', 'SendTimeout', 'SendTakeAck', 'AckOfferExpire', 'ProcTake', 'ConnResend', 'SendTcpReturn'],
+            'C04': ['ProcTake', 'ProcPush', 'ProcAckOut', 'ParkReach', 'AppRecvRet'],
+            'C05': ['SendFirstTx', 'SendResend', 'SendTakeAck', 'ProcPush', 'ProcAckOut', 'AppRecvRet'],
+            'C09': ['ProcHbTick', 'HbResend', 'HbTimeout', 'HbTakeRes', 'ProcFailSignal', 'ServeReconnect', 'ConnLock'],
+            'C10': ['CloseDisc', 'CloseWait', 'ServeExit', 'SendAckClosed', 'SendFirstTx'],
+            'C17': ['ProcPush', 'ParkReach', 'AppRecvRet']}
+COV_RE = re.compile(r'^<(\w+) line \d+, col \d+ to line \d+, col \d+ of module Tunnel>: (\d+):(\d+)', re.M)
+
+
+def run_coverage(work, pid):
+    """TLC -coverage on the quick configurations: how often each action of the specification was taken."""
+    taken = {}
+    for c in MC[pid][0]:
+        rc, out = vlib.tlc(work, 'Tunnel', cfg=c, workers=vlib.NCPU, timeout=900, name='cov_' + c, extra=['-coverage', '1'])
+        for name, distinct, gen in COV_RE.findall(out):
+            if name not in ('Init', 'Next'):
+                taken[name] = max(taken.get(name, 0), int(gen))
+    never = [a for a in REQUIRED[pid] if taken.get(a, 0) == 0]
+    if never:
+        model_note('vacuity: actions %s are never taken in the quick configurations of %s' % (never, pid), '')
+    return dict(action_states_generated=taken, required_actions=REQUIRED[pid], required_actions_never_taken=never)
+
+
 def run_sim(work, pid, tier, seed):
     """Spec x observers: random behaviours of Tunnel.tla fed through TunObs; no clause should be flagged."""
     n = 1500 if tier == 'quick' else 40000
@@ -141,6 +166,7 @@ def check(pid, tier):
     try:
         known = vlib.load_known()
         states, trans, mcdetail = run_mc(w, pid, tier)
+        coverage = run_coverage(w, pid) if tier == 'thorough' else None
         simstates = run_sim(w, pid, tier, seed)
         binary = vlib.build_test(w, './drive/', w.path('drive.test'))
         bub, real = schedules(pid, tier, seed)
@@ -208,7 +234,7 @@ def check(pid, tier):
                    evaluations=len(allruns), distinct_nontrivial=distinct,
                    rule='one evaluation = one schedule (environment choices) executed against the real knx.Tunnel and validated by TLC against the '
                         'TunObs observers; distinct = distinct step sequences with more than two steps',
-                   model_checking=mcdetail, spec_x_observer_states=simstates, trace_events=nev,
+                   model_checking=mcdetail, action_coverage=coverage, spec_x_observer_states=simstates, trace_events=nev,
                    tlc_generated_behaviours=len(tlcruns), random_walk_schedules=len(bub), real_time_schedules=len(real),
                    bubble_stuck_runs=nstuck, conformance=dict(behaviours_compared=ccmp, real_client_matched_specification=ceq, predicted_events_compared=tunnel_check.CONF_STATS.get('events', 0), compared_on_a_prefix_only=tunnel_check.CONF_STATS.get('partial', 0), first_differences=cdiff), model_notes=list(MODEL_NOTES), known_findings={t: len(b) for t, b in kf.items()}, exhaustive=False)
         vlib.write_evidence(pid, tier, 'model_checking', cov, ASSUME[pid], time.time() - t0, len(viol))
